@@ -98,6 +98,8 @@ class EvalDeriv(BaseOneIndex):
         ValueError
             If orders has any negative numbers.
             If orders does not have `dtype` int.
+            If `deriv_type` is "direct" and any order is greater than 2.
+            If `deriv_type` is neither "general" nor "direct".
 
         Note
         ----
@@ -132,9 +134,16 @@ class EvalDeriv(BaseOneIndex):
                 points, orders, center, angmom_comps, alphas, prim_coeffs, norm_prim_cart
             )
         elif deriv_type == "direct":
+            if np.any(orders > 2):
+                raise ValueError(
+                    "The 'direct' derivative implementation supports orders up to 2 along each "
+                    "axis. Use deriv_type='general' for higher orders."
+                )
             output = _eval_first_second_order_deriv_contractions(
                 points, orders, center, angmom_comps, alphas, prim_coeffs, norm_prim_cart
             )
+        else:
+            raise ValueError("`deriv_type` must be either 'general' or 'direct'.")
         return output
 
 
